@@ -908,3 +908,24 @@ theorem printed_tables_complete :
   refine ⟨by decide +kernel, by decide +kernel, by decide +kernel, by decide +kernel, by decide +kernel⟩
 
 end PEval.C20
+
+/-! ## a regenerated table that sees the defect class F12 -/
+namespace PEval.C20
+
+/-- On the running code, every string constructor of a configuration enum returns, for every member's own string
+value, THAT VERY MEMBER (the table `Gen.parserReturnKinds` is produced on every run by calling the real constructors
+and classifying the returned object: member of the enum by identity / str / None / other / raise). A constructor that
+returns the member's name string (defect F12) makes a row read `"str"` and breaks this obligation. -/
+theorem parsers_return_members_in_source :
+    ∀ r ∈ Gen.parserReturnKinds, r.2.2 = "member:" ++ r.2.1 := by decide +kernel
+
+/-- the table covers every member of the five enums for `from_value`, and `set_task` for the tasks -/
+theorem parserReturnKinds_complete :
+    (Gen.parserReturnKinds.filter (fun r => r.1 == "EvaluationTask.from_value")).map (·.2.1) = Gen.evaluationTask.map (·.1) ∧
+    (Gen.parserReturnKinds.filter (fun r => r.1 == "FrameID.from_value")).map (·.2.1) = Gen.frameID.map (·.1) ∧
+    (Gen.parserReturnKinds.filter (fun r => r.1 == "Visibility.from_value")).map (·.2.1) = Gen.visibility.map (·.1) ∧
+    (Gen.parserReturnKinds.filter (fun r => r.1 == "SensorModality.from_value")).map (·.2.1) = Gen.sensorModality.map (·.1) ∧
+    (Gen.parserReturnKinds.filter (fun r => r.1 == "ShapeType.from_value")).map (·.2.1) = Gen.shapeType.map (·.1) := by
+  refine ⟨by decide +kernel, by decide +kernel, by decide +kernel, by decide +kernel, by decide +kernel⟩
+
+end PEval.C20
